@@ -226,6 +226,12 @@ def run(ctx):
             (1, "`prev_child`: adjacent-equality scan over the canonically sorted view (R4.1 makes the order canonical)")},
         "The verdict for one tag or group then depends on which siblings were visited before it, i.e. on sibling order.")
     ctx.floor("R4.4", "loops in the validator modules", nl, 20)
+    ctx.rule("R4.6", "a per-item validator loop is left early only after a report for the current item")
+    from sa.stale import check_no_silent_break
+    allv = [f for f in prog.functions.values() if f.module.name.startswith("hed.validator.")]
+    nb = check_no_silent_break(ctx, "R4.6", allv, "Whether a sibling is validated then depends on whether it comes before or "
+                               "after this item, i.e. on sibling order.")
+    ctx.floor("R4.6", "breaks in reporting loops of the validators", nb, 1)
     ctx.rule("R4.3", "the delimiter scan decides on the blank-stripped form of the accumulated text")
     delimiter_scan_rule(ctx, "R4.3")
 
